@@ -64,6 +64,23 @@ SPECS = {
             _vg("integrate_against_xx", "vg_integrate_xx_F"),
         ],
     },
+    "GenC09Merton": {
+        "file": "rpylib/model/levymodel/mixed/merton.py", "dom": "R", "consts": {"np.inf": "INF", "np.pi": "PI"},
+        "header": "From Coq Require Import ZArith Reals Bool List.\nFrom RV Require Import Base.RB Base.RSpecial.\nOpen Scope R_scope.\n",
+        "calls": {"scipy.special.erf": "erf", "self._helper_erf_aux": "merton_erf_aux"},
+        "funcs": [
+            {"py": "_MertonLevyMeasure._helper_erf_aux", "coq": "merton_erf_aux", "pyargs": ["mu", "sigma", "x"],
+             "args": [("mu", R), ("sigma", R), ("x", R)], "ret": R},
+            {"py": "_MertonLevyMeasure.__call__", "coq": "merton_nu", "pyargs": ["x"],
+             "args": [("lam", R), ("mu_j", R), ("sigma_j", R), ("x", R)], "ret": R, "attrs": _ME_ATTRS},
+            {"py": "_MertonLevyMeasure.integrate", "coq": "merton_integrate", "pyargs": ["a", "b"],
+             "args": [("lam", R), ("mu_j", R), ("sigma_j", R), ("a", R), ("b", R)], "ret": R, "attrs": _ME_ATTRS},
+            {"py": "_MertonLevyMeasure.integrate_against_x", "coq": "merton_integrate_x", "pyargs": ["a", "b"], "nested_defs": True,
+             "args": [("lam", R), ("mu_j", R), ("sigma_j", R), ("a", R), ("b", R)], "ret": R, "attrs": _ME_ATTRS},
+            {"py": "_MertonLevyMeasure.integrate_against_xx", "coq": "merton_integrate_xx", "pyargs": ["a", "b"], "nested_defs": True,
+             "args": [("INF", R), ("lam", R), ("mu_j", R), ("sigma_j", R), ("a", R), ("b", R)], "ret": R, "attrs": _ME_ATTRS},
+        ],
+    },
     "GenC09Trunc": {
         "file": "rpylib/model/levymodel/levymodel.py", "dom": "R",
         "funcs": [
